@@ -49,10 +49,26 @@ def unravel : List Nat → Nat → List Nat
   | [], _ => []
   | d :: s, o => (o % d) :: unravel s (o / d)
 
-/-- row-major offset of a reversed multi-index (`np.ravel_multi_index`) -/
+/-- row-major offset of a reversed multi-index (`np.ravel_multi_index` with `mode='wrap'`: an index is
+taken modulo the size of its axis, so the offset of an out-of-range index is that of a definite in-range
+one; on valid indices this is the plain row-major offset) -/
 def ravel : List Nat → List Nat → Nat
   | [], _ => 0
-  | d :: s, idx => idx.getD 0 0 + d * ravel s (idx.drop 1)
+  | d :: s, idx => idx.getD 0 0 % d + d * ravel s (idx.drop 1)
+
+/-- the index `ravel` actually addresses: every entry modulo the size of its axis -/
+def modnorm : List Nat → List Nat → List Nat
+  | [], _ => []
+  | d :: s, idx => (idx.getD 0 0 % d) :: modnorm s (idx.drop 1)
+
+/-- the leading index `lead`, read with NumPy broadcasting against the (reversed) leading sizes `dims`,
+is in range: on every leading axis that is not a singleton the index is below the size -/
+def ValidLead (dims lead : List Nat) : Prop :=
+  ∀ i, i < dims.length → dims.getD i 1 ≠ 1 → lead.getD i 0 < dims.getD i 1
+
+/-- executable form of `ValidLead` -/
+def validLeadB (dims lead : List Nat) : Bool :=
+  (List.range dims.length).all fun i => dims.getD i 1 == 1 || decide (lead.getD i 0 < dims.getD i 1)
 
 /-! ## tensors -/
 
@@ -218,7 +234,7 @@ def estimateMixtureWeight (eps : α) (affiliation : T α) (saliency : Option (T 
     --   norm = np.linalg.norm(signal, ord=1, axis=-2, keepdims=True); norm = np.where(norm == 0, eps, norm)
     let norm := sumAxisKeep 1 (map absS sm)
     let norm := map (fun x => if x == 0 then eps else x) norm
-    -- signal / norm
+    -- signal / norm      (the later `if -2 in [...]` branch is not taken for weight_constant_axis = (-1,))
     zipWith (· / ·) sm norm
 
 /-- covariance types of `pb_bss/distribution/gaussian.py` -/
@@ -321,6 +337,23 @@ def diagonalPostInitNoReshape (covariance : T α) : T α × T α :=
   let pc := map (fun x => (1 : α) / Transc.sqrt x) c
   (unflattenLead 1 lead pc, sumAxis 0 (map Transc.log pc))
 
+/-- what `DiagonalGaussian.__post_init__` computes for ONE model (no leading axes, no reshapes):
+`pc = 1 / sqrt(covariance)`, `log_det = sum(log(pc))` -/
+def diagonalPostInitCore (cov : T α) : T α × T α :=
+  let pc := map (fun x => (1 : α) / Transc.sqrt x) cov
+  (pc, sumAxis 0 (map Transc.log pc))
+
+/-- what `SphericalGaussian.__post_init__` computes for ONE model -/
+def sphericalPostInitCore (dim : Nat) (cov : T α) : T α × T α :=
+  let pc := map (fun x => (1 : α) / Transc.sqrt x) cov
+  (pc, map (fun x => (dim : α) * Transc.log x) pc)
+
+/-- what `Gaussian.__post_init__` computes for ONE `(D, D)` covariance: the external factor and the
+sum of the logs of its diagonal -/
+def fullPostInitCore (chol : T α → T α) (cov : T α) : T α × T α :=
+  let pc := mapCore 2 2 (cov.rshape.take 2) chol cov
+  (pc, sumAxis 0 (map Transc.log (diagLast2 pc)))
+
 /-- `SphericalGaussian.__post_init__`: `c = np.reshape(covariance, (-1,))`, `pc = 1 / np.sqrt(c)`,
 `log_det = D * np.log(pc)` (sklearn `'spherical'`), both reshaped to `covariance.shape`. -/
 def sphericalPostInit (dim : Nat) (covariance : T α) : T α × T α :=
@@ -340,6 +373,226 @@ def fullPostInit (chol : T α → T α) (covariance : T α) : T α × T α :=
   let pc := mapCore 2 2 dd chol c
   (unflattenLead 2 lead pc, unflattenLead 0 lead (sumAxis 0 (map Transc.log (diagLast2 pc))))
 
+/-! ### the Gaussian mixture model: `gmm.py` -/
+
+/-- fields of `GMM` (`weight`, and the `gaussian` with its derived fields) -/
+structure Gmm (α : Type) where
+  weight : T α      -- (..., K, 1)
+  mean : T α        -- (..., K, D)
+  cov : T α         -- (..., K, D, D) / (..., K, D) / (..., K)
+  pc : T α          -- precision_cholesky, shape of `cov`
+  logDet : T α      -- log_det_precision_cholesky, (..., K)
+
+/-- `lead` is a valid leading index of a stacked covariance field whose last `r` axes belong to one
+covariance and whose axis before them is the class axis: the field has these `r + 1` axes, none of the
+flattened axes is empty, and `lead` is in range on every non-singleton leading axis -/
+def GoodLead (r : Nat) (cov : T α) (lead : List Nat) : Prop :=
+  r + 1 ≤ cov.rank ∧ (∀ d, d ∈ cov.rshape.drop r → 0 < d) ∧ ValidLead (cov.rshape.drop (r + 1)) lead
+
+/-- executable form of `GoodLead` (a statement about shapes only) -/
+def goodLeadB (r : Nat) (cov : T α) (lead : List Nat) : Bool :=
+  (decide (r + 1 ≤ cov.rank) && (cov.rshape.drop r).all fun d => decide (0 < d)) &&
+    validLeadB (cov.rshape.drop (r + 1)) lead
+
+/-- `__post_init__` of the model class selected by `covariance_type` -/
+def gaussPostInit (ct : CovType) (chol : T α → T α) (dim : Nat) (cov : T α) : T α × T α :=
+  match ct with
+  | .full => fullPostInit chol cov
+  | .diagonal => diagonalPostInit cov
+  | .spherical => sphericalPostInit dim cov
+
+/-- `log_pdf` of the model class selected by `covariance_type` -/
+def gaussLogPdfOf (ct : CovType) (log2pi : α) (mean pc logDet y : T α) : T α :=
+  match ct with
+  | .full => gaussianLogPdf log2pi mean pc logDet y
+  | .diagonal => diagonalGaussianLogPdf log2pi mean pc logDet y
+  | .spherical => sphericalGaussianLogPdf log2pi mean pc logDet y
+
+/-- core rank of the covariance field of ONE Gaussian per covariance type -/
+def covRank : CovType → Nat
+  | .full => 2
+  | .diagonal => 1
+  | .spherical => 0
+
+/-- `GMMTrainer._m_step` (`fixed_covariance=None`): `y : (..., N, D)`, `affiliation : (..., K, N)`,
+`saliency : (..., N)` (`fit` replaces `None` by ones) -/
+def gmmMStep (tiny eps : α) (ct : CovType) (chol : T α → T α) (y affiliation saliency : T α) : Gmm α :=
+  -- weight = estimate_mixture_weight(affiliation=affiliation, saliency=saliency, weight_constant_axis=(-1,))
+  let weight := estimateMixtureWeight eps affiliation (some saliency)
+  -- gaussian = GaussianTrainer()._fit(y=x[..., None, :, :], saliency=affiliation * saliency[..., None, :], covariance_type)
+  let fit := gaussianFit tiny ct (expandDims 2 y) (some (zipWith (· * ·) affiliation (expandDims 1 saliency)))
+  let pi := gaussPostInit ct chol (y.rshape.getD 0 1) fit.2
+  ⟨weight, fit.1, fit.2, pi.1, pi.2⟩
+
+/-- `GMM.predict`: `log_pdf_to_affiliation(self.weight, self.gaussian.log_pdf(x[..., None, :, :]))` -/
+def gmmPredict (tiny log2pi : α) (ct : CovType) (m : Gmm α) (y : T α) : T α :=
+  logPdfToAffiliation tiny m.weight (gaussLogPdfOf ct log2pi m.mean m.pc m.logDet (expandDims 2 y)) none none
+
+/-- `GMMTrainer._fit` with `iterations = n + 1`: M-step from the initial affiliation, then alternately
+`affiliation = model.predict(y)` and the M-step -/
+def gmmFit (tiny eps log2pi : α) (ct : CovType) (chol : T α → T α) (y initialization saliency : T α) : Nat → Gmm α
+  | 0 => gmmMStep tiny eps ct chol y initialization saliency
+  | n + 1 =>
+    gmmMStep tiny eps ct chol y
+      (gmmPredict tiny log2pi ct (gmmFit tiny eps log2pi ct chol y initialization saliency n) y) saliency
+
+/-- `np.linalg.norm(t, axis=-(k+1))` of a real tensor (`keepdims=False`) -/
+def normAxis (k : Nat) (t : T α) : T α := reduceDrop k (fun n f => Transc.sqrt (sumN n fun j => f j * f j)) t
+/-- `np.linalg.norm(t, axis=-(k+1), keepdims=True)` of a real tensor -/
+def normAxisKeep (k : Nat) (t : T α) : T α := reduceKeep k (fun n f => Transc.sqrt (sumN n fun j => f j * f j)) t
+
+/-- `von_mises_fisher.py: VonMisesFisherTrainer._fit` — `y : (..., N, D)` (unit norm, core rank 2),
+`saliency : (..., N)` or `None`.  Returns `(mean, concentration)` with core ranks 1 and 0. -/
+def vmfFit (tiny minC maxC : α) (y : T α) (saliency : Option (T α)) : T α × T α :=
+  let dim : Nat := y.rshape.getD 0 1
+  -- if saliency is None: saliency = np.ones(y.shape[:-1])
+  let sal : T α := match saliency with
+    | none => const (y.rshape.drop 1) 1
+    | some s => s
+  -- r = np.einsum("...n,...nd->...d", saliency, y)
+  let r := sumAxis 1 (zipWith (· * ·) (expandDims 0 sal) y)
+  -- norm = np.linalg.norm(r, axis=-1)
+  let norm := normAxis 0 r
+  -- mean = r / np.maximum(norm, tiny)[..., None]
+  let mean := zipWith (· / ·) r (expandDims 0 (map (fun x => max x tiny) norm))
+  -- r_bar = np.minimum(norm / np.sum(saliency, axis=-1), 1)
+  let rBar := map (fun x => if 1 < x then 1 else x) (zipWith (· / ·) norm (sumAxis 0 sal))
+  -- concentration = (r_bar * D - r_bar ** 3) / (1 - r_bar ** 2); np.clip(·, min, max)
+  let conc := map (fun x => (x * (dim : α) - x * x * x) / (1 - x * x)) rBar
+  let conc := map (fun x => if x < minC then minC else if maxC < x then maxC else x) conc
+  (mean, conc)
+
+/-- `VonMisesFisher.log_pdf` — `mean : (..., D)`, `concentration, log_norm : (...)` (`log_norm()` uses the
+elementwise external `scipy.special.ive`; its values are an input), `y : (..., N, D)`; result `(..., N)` -/
+def vmfLogPdf (tiny : α) (mean conc logNorm y : T α) : T α :=
+  -- y = y / np.maximum(np.linalg.norm(y, axis=-1, keepdims=True), tiny)
+  let y := zipWith (· / ·) y (map (fun x => max x tiny) (normAxisKeep 0 y))
+  -- result = np.einsum("...d,...d", y, self.mean[..., None, :])
+  let r := sumAxis 0 (zipWith (· * ·) y (expandDims 1 mean))
+  -- result *= self.concentration[..., None]; result -= self.log_norm()[..., None]
+  let r := zipWith (· * ·) r (expandDims 0 conc)
+  zipWith (· - ·) r (expandDims 0 logNorm)
+
 end transcriptions
+
+/-! ### complex-valued models: `κ` is "complex over `α`" (`CxOps α κ`) -/
+section complex
+variable {κ : Type} [Add α] [Sub α] [Mul α] [Div α] [Neg α] [OfNat α 0] [OfNat α 1] [NatCast α] [Max α]
+  [LT α] [DecidableLT α] [BEq α] [Transc α]
+  [Add κ] [Sub κ] [Mul κ] [Div κ] [OfNat κ 0] [OfNat κ 1] [CxOps α κ]
+
+def conjT (t : T κ) : T κ := map (CxOps.conj (α := α)) t
+def reT (t : T κ) : T α := map (CxOps.re (β := κ)) t
+def abs2S (z : κ) : α := CxOps.re z * CxOps.re z + CxOps.im z * CxOps.im z
+def absC (z : κ) : α := Transc.sqrt (abs2S (α := α) z)
+def scaleC (s : α) (z : κ) : κ := CxOps.ofReal s * z
+def divR (z : κ) (s : α) : κ := z / CxOps.ofReal s
+
+/-- scatter matrix of `ComplexWatsonTrainer._fit`, `ComplexBinghamTrainer._fit` (`floorDen = none`) and
+`ComplexCircularSymmetricGaussianTrainer._fit` (`floorDen = some tiny`): `y : (..., N, D)` complex,
+`saliency : (..., N)` real or `None`; result `(..., D, D)` -/
+def scatter (floorDen : Option α) (y : T κ) (saliency : Option (T α)) : T κ :=
+  let nObs : Nat := y.rshape.getD 1 1
+  -- np.einsum("...nd,...nD->...dD", y, y.conj())  /  np.einsum("...n,...nd,...nD->...dD", saliency, y, y.conj())
+  let prod := zipWith (· * ·) (expandDims 0 y) (expandDims 1 (conjT (α := α) y))            -- (..., n, d, D)
+  match saliency with
+  | none =>
+    -- denominator = np.array(y.shape[-2])
+    map (fun z => divR z (nObs : α)) (sumAxis 2 prod)
+  | some s =>
+    let cov := sumAxis 2 (zipWith (scaleC (α := α)) (expandDims 0 (expandDims 0 s)) prod)
+    -- denominator = np.einsum("...n->...", saliency)[..., None, None]   (cgauss: np.maximum(·, tiny))
+    let den := sumAxis 0 s
+    let den := match floorDen with
+      | none => den
+      | some tiny => map (fun x => max x tiny) den
+    zipWith (divR (α := α)) cov (expandDims 0 (expandDims 0 den))
+
+/-- `ComplexWatson.log_pdf` — `mode : (..., D)` complex, `concentration, log_norm : (...)` real
+(`log_norm` uses the elementwise external `hyp1f1`; values are an input), `y : (..., N, D)`; result `(..., N)` -/
+def watsonLogPdf (mode : T κ) (conc logNorm : T α) (y : T κ) : T α :=
+  -- result = np.einsum("...d,...d", y, self.mode[..., None, :].conj())
+  let r := sumAxis 0 (zipWith (· * ·) y (conjT (α := α) (expandDims 1 mode)))
+  -- result = result.real ** 2 + result.imag ** 2
+  let r := map (abs2S (α := α)) r
+  -- result *= self.concentration[..., None]; result -= self.log_norm()[..., None]
+  zipWith (· - ·) (zipWith (· * ·) r (expandDims 0 conc)) (expandDims 0 logNorm)
+
+/-- the `covariance` property of cACG / Bingham: `np.einsum('...wx,...x,...zx->...wz', U, λ, U.conj())` -/
+def eigCovariance (vecs : T κ) (vals : T α) : T κ :=
+  -- (..., w, z, x) summed over x
+  sumAxis 0 (zipWith (· * ·) (zipWith (fun z (s : α) => scaleC s z) (expandDims 1 vecs) (expandDims 1 (expandDims 1 vals)))
+    (expandDims 2 (conjT (α := α) vecs)))
+
+/-- `ComplexBingham.log_pdf` — `covariance_eigenvectors : (..., D, D)`, `covariance_eigenvalues : (..., D)`,
+`log_norm : (...)` (value of `self.log_norm()` passed in), `y : (..., N, D)`; result `(..., N)` -/
+def binghamLogPdf (vecs : T κ) (vals logNorm : T α) (y : T κ) : T α :=
+  let cov := eigCovariance vecs vals
+  -- np.einsum("...td,...dD,...tD->...t", y.conj(), self.covariance, y)
+  let yc := expandDims 0 (conjT (α := α) y)                                                   -- (..., t, d, 1)
+  let q := sumAxis 0 (sumAxis 0 (zipWith (· * ·) (zipWith (· * ·) yc (expandDims 2 cov)) (expandDims 1 y)))
+  -- result = result.real; result -= self.log_norm()[..., None]
+  zipWith (· - ·) (reT q) (expandDims 0 logNorm)
+
+/-- `complex_angular_central_gaussian.py: normalize_observation` — `_unit_norm(axis=-1, eps=tiny,
+eps_style='where')` followed by `np.swapaxes(·, -2, -1)`: `(..., N, D) ↦ (..., D, N)` -/
+def cacgNormalize (tiny : α) (y : T κ) : T κ :=
+  -- norm = np.linalg.norm(signal, axis=-1, keepdims=True); norm = np.where(norm == 0, eps, norm)
+  let norm : T α := reduceKeep 0 (fun n f => Transc.sqrt (sumN n fun j => abs2S (α := α) (f j))) y
+  let norm := map (fun x => if x == 0 then tiny else x) norm
+  swapaxes 0 1 (zipWith (divR (α := α)) y norm)
+
+/-- the start value of `ComplexAngularCentralGaussianTrainer.fit`:
+`quadratic_form = np.ones((*independent, N))` for `y : (..., N, D)` (commit cf5e8f1) -/
+def cacgStartQuadraticForm (y : T κ) : T α := const (y.rshape.drop 1) 1
+
+/-- `ComplexAngularCentralGaussianTrainer._fit` up to the eigen-decomposition: `y : (..., D, N)` (already
+normalised and swapped), `saliency : (..., N)` or `None` (then `1`), `quadratic_form : (..., N)`;
+result: the (hermitised) covariance `(..., D, D)` handed to `from_covariance` -/
+def cacgFitCovariance (tiny : α) (hermitize : Bool) (y : T κ) (saliency : Option (T α)) (quadraticForm : T α) : T κ :=
+  let dim : Nat := y.rshape.getD 1 1          -- D = y.shape[-2]
+  let nObs : Nat := quadraticForm.rshape.getD 0 1
+  let ten : α := ((10 : Nat) : α)
+  -- quadratic_form = np.maximum(quadratic_form, 10 * tiny)
+  let q := map (fun x => max x (ten * tiny)) quadraticForm
+  -- (saliency / quadratic_form)
+  let w : T α := match saliency with
+    | none => map (fun x => (1 : α) / x) q
+    | some s => zipWith (· / ·) s q
+  -- covariance = D * np.einsum('...dn,...Dn,...n->...dD', y, y.conj(), saliency / quadratic_form)
+  let prod := zipWith (· * ·) (expandDims 1 y) (expandDims 2 (conjT (α := α) y))             -- (..., d, D, n)
+  let cov := sumAxis 0 (zipWith (fun z (s : α) => scaleC s z) prod (expandDims 1 (expandDims 1 w)))
+  let cov := map (fun z => scaleC (dim : α) z) cov
+  -- denominator: np.array(N) or np.einsum('...n->...', saliency)[..., None, None]; covariance /= np.maximum(denominator, tiny)
+  let cov := match saliency with
+    | none => map (fun z => divR z (max (nObs : α) tiny)) cov
+    | some s => zipWith (divR (α := α)) cov (expandDims 0 (expandDims 0 (map (fun x => max x tiny) (sumAxis 0 s))))
+  -- force_hermitian: (matrix + np.swapaxes(matrix.conj(), -1, -2)) / 2
+  if hermitize then
+    map (fun z => divR z ((1 : α) + 1)) (zipWith (· + ·) cov (swapaxes 0 1 (conjT (α := α) cov)))
+  else cov
+
+/-- eigenvalue post-processing of `ComplexAngularCentralGaussian.from_covariance` for
+`covariance_norm='eigenvalue'`: `λ / max(amax(λ, axis=-1, keepdims=True), tiny)` then `max(·, floor)` -/
+def cacgEigenvalueNorm (tiny floor : α) (vals : T α) : T α :=
+  let v := zipWith (· / ·) vals (map (fun x => max x tiny) (amaxAxisKeep 0 vals))
+  map (fun x => max x floor) v
+
+/-- `ComplexAngularCentralGaussian._log_pdf` — `y : (..., D, T)` normalised, eigenvectors `(..., D, D)`,
+eigenvalues `(..., D)`; returns `(log_pdf, quadratic_form)`, both `(..., T)` -/
+def cacgLogPdf (tiny : α) (vecs : T κ) (vals : T α) (y : T κ) : T α × T α :=
+  let dim : Nat := y.rshape.getD 1 1
+  -- np.einsum('...dt,...de,...e,...ge,...gt->...t', y.conj(), U, 1 / λ, U.conj(), y)
+  let a := sumAxis 2 (zipWith (· * ·) (expandDims 1 (conjT (α := α) y)) (expandDims 0 vecs))              -- (..., e, t)
+  let b := sumAxis 2 (zipWith (· * ·) (expandDims 0 (conjT (α := α) vecs)) (expandDims 1 y))              -- (..., e, t)
+  let inv := map (fun x => (1 : α) / x) vals
+  let s := sumAxis 1 (zipWith (· * ·) (zipWith (fun z (x : α) => scaleC x z) a (expandDims 0 inv)) b)     -- (..., t)
+  -- quadratic_form = np.maximum(np.abs(·), tiny)
+  let q := map (fun z => max (absC (α := α) z) tiny) s
+  -- log_pdf = -D * np.log(quadratic_form); log_pdf -= self.log_determinant[..., None]
+  let logDet := sumAxis 0 (map Transc.log vals)
+  (zipWith (· - ·) (map (fun x => -(dim : α) * Transc.log x) q) (expandDims 0 logDet), q)
+
+end complex
 
 end PbBss.Tensor
